@@ -34,7 +34,7 @@ func TestC11(t *testing.T) {
 		"collections happen every minute from the relay's start (relay.go background ticker)")
 
 	if os.Getenv("VERIF_RACE") == "1" {
-		concurrency(t, r, 60, 200)
+		concurrency(t, r, 400, 3000)
 		r.Require("conc_rounds", 20)
 		return
 	}
@@ -59,6 +59,17 @@ func TestC11(t *testing.T) {
 	r.Require("hist_circuit_ended_by_duration", 10)
 	r.Require("hist_circuit_ended_by_disconnect", 10)
 	r.Require("hist_connect_in_expiry_window", 3)
+
+	concurrency(t, r, 600, 8000)
+	r.Require("conc_rounds", 100)
+	r.Require("conc_reserve_refused", 100)
+	r.Require("conc_connect_limit", 100)
+	r.Require("conc_connect_ok", 100)
+
+	clientVouchers(t, r)
+	systemRuns(t, r)
+
+	faults(t, r)
 
 	dataAndDuration(t, r)
 	r.Require("data_delivered_up_to_limit", 100)
@@ -116,6 +127,7 @@ type histResult struct {
 	problems []problem
 	bubble   run.BubbleResult
 	ops      int
+	stalled  bool
 }
 
 func runHistory(t *testing.T, rng *rand.Rand, cfg relayCfg, nops int) *histResult {
@@ -126,10 +138,7 @@ func runHistory(t *testing.T, rng *rand.Rand, cfg relayCfg, nops int) *histResul
 			res.problems = append(res.problems, problem{"harness:setup", err.Error()})
 			return
 		}
-		defer func() {
-			w.shutdown()
-			res.log, res.problems = w.log, append(res.problems, w.problems...)
-		}()
+		defer res.collect(w)
 		m := w.m
 		count := func(k string) { res.classes[k]++ }
 		allConns := func() (l []*mconn) {
@@ -268,6 +277,29 @@ func nontrivialHistory(c map[string]int) bool {
 	return okR && okC && refused > 0
 }
 
+// collect copies what the world recorded into the case result (called when the bubble's scenario ends).
+func (res *histResult) collect(w *world) {
+	w.shutdown()
+	res.log, res.problems, res.stalled = w.log, append(res.problems, w.problems...), w.stalled
+}
+
+// settle turns a finished case into violations / inconclusive notes; false: the case did not complete.
+func settle(r *run.R, caseID string, res *histResult, detail map[string]any) bool {
+	if reportBubble(r, caseID, res.bubble, detail) {
+		return false
+	}
+	if res.stalled {
+		r.Inconclusive(caseID, "virtual-time watchdog fired (scenario did not finish within 30 virtual days); last events: "+strings.Join(res.log[max(0, len(res.log)-5):], " | "))
+		return false
+	}
+	for _, p := range res.problems[:min(len(res.problems), 1)] {
+		detail["all_problems"] = res.problems
+		r.Violation(p.Sig, caseID, p.Msg, detail)
+	}
+	r.Eval(1)
+	return true
+}
+
 func reportBubble(r *run.R, caseID string, b run.BubbleResult, detail any) bool {
 	if b.OK() {
 		return false
@@ -282,7 +314,7 @@ func reportBubble(r *run.R, caseID string, b run.BubbleResult, detail any) bool 
 }
 
 func histories(t *testing.T, r *run.R) {
-	n := r.Pick(2000, 80000)
+	n := r.Pick(8000, 80000)
 	var mu sync.Mutex
 	run.Parallel(n, 0, func(i int) {
 		caseID := fmt.Sprintf("hist/%d", i)
@@ -293,14 +325,9 @@ func histories(t *testing.T, r *run.R) {
 		cfg := genCfg(rng)
 		res := runHistory(t, rng, cfg, 25+rng.IntN(25))
 		detail := map[string]any{"config": cfg, "events": res.log}
-		if reportBubble(r, caseID, res.bubble, detail) {
+		if !settle(r, caseID, res, detail) {
 			return
 		}
-		for _, p := range res.problems[:min(len(res.problems), 1)] {
-			detail["all_problems"] = res.problems
-			r.Violation(p.Sig, caseID, p.Msg, detail)
-		}
-		r.Eval(1)
 		mu.Lock()
 		for k, v := range res.classes {
 			r.Count("hist_"+k, v)
@@ -315,5 +342,3 @@ func histories(t *testing.T, r *run.R) {
 		}
 	})
 }
-
-func concurrency(t *testing.T, r *run.R, q, th int) {}
